@@ -1,5 +1,6 @@
 import XzVerif.Model.ReadLoop
 import XzVerif.Proofs.ReadLoops
+import XzVerif.Proofs.LazyDec
 /-
   C13 — Decoded output is independent of read sizes and source fragmentation; EOF is stable.
 
@@ -12,8 +13,24 @@ import XzVerif.Proofs.ReadLoops
   (chunk readers), `streamReader.Read` (blocks) and `Reader.Read` (streams) over parts that each
   satisfy the contract (`C13_chain_*`) — whatever the batch sizes and part boundaries.  That the
   Go code is these loops, under every source fragmentation, is established by the correspondence
-  check (per-call (n, status) sequences).  `_partial`: ring-buffer indexing and the source side
-  (`io.ReadFull` over fragmented sources) are not modelled.
+  check (per-call (n, status) sequences).  `_partial`: the source side (`io.ReadFull` over fragmented sources) is not modelled.
+
+  **The classic reader at ring level.**  `Model/LazyDec.lean` is lzma/decoder.go + lzma/reader.go as the code runs:
+  `decompress` refills the decoder dictionary's RING only while a maximal match fits (`Available() ≥ 273`), `Read`
+  drains the ring into the caller's buffer, the coding contexts are read off the ring; every error and panic branch of
+  the Go code is an outcome.  It agrees call by call (count, nil / EOF / which error, bytes) with the real `lzma.Reader`
+  on valid, truncated, bit-flipped, wrong-size and extended streams under read-length schedules (every run).  Proved
+  (`Proofs/LazyDec*.lean`, 1 300 lines) for EVERY input — valid or not — and EVERY schedule of buffer lengths:
+  * `C13_lazy_delivered_prefix`, `C13_lazy_eof_complete`: whatever the buffer lengths, the bytes delivered are a prefix
+    of what the batch reader decodes, and a schedule that reaches `io.EOF` has delivered exactly that — the decoded
+    output does not depend on the read sizes;
+  * `C13_lazy_call_sizes`: never more than requested; a call returning nil filled its buffer;
+  * `C13_lazy_reaches_eof`: a schedule asking for more than the content of a cleanly ending stream ends with `io.EOF`;
+  * `C13_lazy_errors_agree`: a schedule that ends with an error ends with the batch reader's error class;
+  * `C13_lazy_never_no_space` (also C11 / C03): the ring never lacks space for an operation, no length is out of
+    range, the copy loop's panic is unreachable.
+  The LZMA2 reader (`Model/LazyDec2.lean`) and the xz reader (`Model/LazyXz.lean`) are modelled at the same level and
+  tied call by call; their refinement proofs are not done (the batch models and the contract model above cover them).
 -/
 namespace Props.C13
 open ReadLoop
@@ -89,8 +106,8 @@ theorem C13_n_le_len (content : List α) (n : Nat) : (readCall content n).1.leng
   by_cases h0 : n = 0
   · simp [h0]
   · by_cases hl : content.length < n
-    · simp [h0, hl]; omega
-    · simp [h0, hl]; omega
+    · simp [h0, hl] <;> omega
+    · simp [h0, hl] <;> omega
 
 /-- schedule independence: if the schedule asks for at least one byte more than the content
     holds, everything is delivered, whatever the individual sizes (including 0 and 1) -/
@@ -168,5 +185,63 @@ theorem C13_chain_schedule (sizes : List Nat) (parts : List (List α)) :
 example : readSeq [1, 2, 3, 4, 5] [0, 1, 0, 3, 4, 2, 0] =
     [([], false), ([1], false), ([], false), ([2, 3, 4], false), ([5], true), ([], true), ([], false)] := by
   decide
+
+/-! ### the lazy, ring-level classic reader refines the batch reader (Model/LazyDec.lean) -/
+
+open LazyDec in
+theorem C13_lazy_delivered_prefix (cfgCap : Nat) (inp : ByteArray) (l : LSt) (h : newReader cfgCap inp = .ok l)
+    (lens : List Nat) (hfuel : (Lzma1.read (effCap cfgCap) inp).status ≠ .err "fuel exhausted") :
+    let out := (Lzma1.read (effCap cfgCap) inp).out
+    (delivered (readSeq l lens)).size ≤ out.size ∧
+    delivered (readSeq l lens) = out.extract 0 (delivered (readSeq l lens)).size :=
+  LazyDec.delivered_prefix cfgCap inp l h lens hfuel
+
+open LazyDec in
+theorem C13_lazy_eof_complete (cfgCap : Nat) (inp : ByteArray) (l : LSt) (h : newReader cfgCap inp = .ok l)
+    (lens : List Nat) (hfuel : (Lzma1.read (effCap cfgCap) inp).status ≠ .err "fuel exhausted")
+    (he : lastStat (readSeq l lens) = .eof) :
+    (Lzma1.read (effCap cfgCap) inp).status = .eof ∧
+    delivered (readSeq l lens) = (Lzma1.read (effCap cfgCap) inp).out :=
+  LazyDec.eof_complete cfgCap inp l h lens hfuel he
+
+open LazyDec in
+/-- two schedules that both reach the end deliver the same bytes: independence of the read sizes -/
+theorem C13_lazy_schedule_independent (cfgCap : Nat) (inp : ByteArray) (l : LSt) (h : newReader cfgCap inp = .ok l)
+    (lens1 lens2 : List Nat) (hfuel : (Lzma1.read (effCap cfgCap) inp).status ≠ .err "fuel exhausted")
+    (h1 : lastStat (readSeq l lens1) = .eof) (h2 : lastStat (readSeq l lens2) = .eof) :
+    delivered (readSeq l lens1) = delivered (readSeq l lens2) := by
+  rw [(LazyDec.eof_complete cfgCap inp l h lens1 hfuel h1).2, (LazyDec.eof_complete cfgCap inp l h lens2 hfuel h2).2]
+
+open LazyDec in
+theorem C13_lazy_call_sizes (cfgCap : Nat) (inp : ByteArray) (l : LSt) (h : newReader cfgCap inp = .ok l) (lens : List Nat) :
+    (readSeq l lens).length ≤ lens.length ∧
+    ∀ i (hi : i < (readSeq l lens).length),
+      ((readSeq l lens)[i]).1.size ≤ lens[i]! ∧
+      (((readSeq l lens)[i]).2 = .ok → ((readSeq l lens)[i]).1.size = lens[i]!) :=
+  LazyDec.call_sizes cfgCap inp l h lens
+
+open LazyDec in
+theorem C13_lazy_reaches_eof (cfgCap : Nat) (inp : ByteArray) (l : LSt) (h : newReader cfgCap inp = .ok l) (lens : List Nat)
+    (hclean : (Lzma1.read (effCap cfgCap) inp).status = .eof)
+    (hsum : (Lzma1.read (effCap cfgCap) inp).out.size < lens.sum) :
+    lastStat (readSeq l lens) = .eof :=
+  LazyDec.reaches_eof cfgCap inp l h lens hclean hsum
+
+open LazyDec in
+theorem C13_lazy_errors_agree (cfgCap : Nat) (inp : ByteArray) (l : LSt) (h : newReader cfgCap inp = .ok l) (lens : List Nat)
+    (hfuel : (Lzma1.read (effCap cfgCap) inp).status ≠ .err "fuel exhausted")
+    (e : Err) (he : lastStat (readSeq l lens) = .err e) :
+    (Lzma1.read (effCap cfgCap) inp).status.cls = (statusOf e).cls :=
+  LazyDec.err_agrees cfgCap inp l h lens hfuel e he
+
+open LazyDec in
+theorem C13_lazy_never_no_space (cfgCap : Nat) (inp : ByteArray) (l : LSt) (h : newReader cfgCap inp = .ok l) (lens : List Nat) :
+    ∀ r ∈ readSeq l lens, r.2 ≠ .err .noSpace ∧ r.2 ≠ .err .lenRange ∧ r.2 ≠ .err .panic :=
+  LazyDec.never_noSpace cfgCap inp l h lens
+
+open LazyDec in
+theorem C13_lazy_open_agrees (cfgCap : Nat) (inp : ByteArray) :
+    (newReader cfgCap inp).toOption.isSome = !(Lzma1.read (effCap cfgCap) inp).openError :=
+  LazyDec.newReader_ok_iff cfgCap inp
 
 end Props.C13
